@@ -105,6 +105,11 @@ CLAIMS = {
   "Trusted: go/types constant evaluation, Go's html.UnescapeString, x/image/colornames, the transcribed lists in checker/internal/ref. "
   "Not covered: that each table entry is exercised through the public minifier (dynamic).",
   "DESIGN.md §4 C17"),
+ "C18": ("other",
+  "guard-domination and must-pass-through rules on the CFG of minify.DataURI (boundary tests of the default-type and charset cuts, length comparisons before returning the input or choosing base64), cross-listed lookup / error / decoder rules of C11, source inspection of the dependency's URL decoder",
+  "Decides only the clauses of C18 whose truth is in the shape of minify.DataURI (R18.1-R18.6, DESIGN.md §4 C18): the default media type text/plain is dropped only as a whole type (end or `;` follows) and `;charset=us-ascii` only between parameter boundaries — necessary for `the same media type`; the unchanged input is returned exactly under a comparison of its length with both candidate encodings and base64 is chosen under a comparison of the two candidate lengths — necessary for `never more bytes than it was given` and `whichever is shorter`; the payload's minifier is looked up under the media type as parsed (= R11.5). "
+  "Two known findings: the payload minifier's error is discarded (= R11.1), and the pinned dependency decodes `+` in a payload as a space (= R11.8). NOT decided: the payload round trip per byte value, the arithmetic of the length comparison itself, minify.Mediatype (quoted strings with escaped quotes are not recognised by it — observation).",
+  OTHER_NOTE, "DESIGN.md §4 C18"),
  "C19": ("other",
   "path rules on the CFG of cmd/minify (fallback rebinding, loop-exit and counter rules), provenance classification of path arguments of mutating os calls, writer/reader agreement of the backup name",
   "Decides (R19.1-R19.7, DESIGN.md §4 C19): a failed minification writes the original bytes and reports failure; task loops never stop early, failures are counted, summed over workers and decide the exit status; only destinations and backups are ever mutated; "
@@ -263,10 +268,16 @@ _amend("C03", "text", "Decides ten local clauses", "Decides eleven local clauses
 _amend("C11", "text", "(R11.1-R11.7, DESIGN.md §4 C11;", "(R11.1-R11.8, DESIGN.md §4 C11; R11.8 reports a known finding in the pinned dependency: `+` in a data URI payload is decoded as a space;")
 _amend("C19", "text", "(R19.1-R19.16,", "(R19.1-R19.17,")
 _amend("C20", "text", "(R20.1-R20.9", "(R20.1-R20.10")
+# eighth pass
+_amend("C03", "text", "(R03.1-R03.11 incl. R03.5c-e, DESIGN.md §4 C03):", "(R03.1-R03.13 incl. R03.5c-e, DESIGN.md §4 C03):")
+_amend("C03", "text", "Decides eleven local clauses", "Decides thirteen local clauses")
+_amend("C04", "text", "(R04.1-R04.10, DESIGN.md §4 C04):", "(R04.1-R04.11, DESIGN.md §4 C04):")
+_amend("C04", "text", "Decides ten structural clauses only", "Decides eleven structural clauses only")
+_amend("C09", "text", "(R09.1, R09.3-R09.12, DESIGN.md §4 C09;", "(R09.1, R09.3-R09.14, DESIGN.md §4 C09;")
+_amend("C10", "text", "(R10.1-R10.10,", "(R10.1-R10.11,")
+_amend("C10", "text", "Decides ten structural clauses", "Decides eleven structural clauses")
 
 NOT_APPLICABLE = {
- "C18": "DataURI/Mediatype correctness is about decoded byte values and length comparisons between encodings; no structural clause separates a right "
-        "from a wrong version (the structural neighbours are checked under C10 R10.1, C11 R11.1, C13 R13.4).",
 }
 
 PENDING = "static rules designed in DESIGN.md §4 but not built yet in this revision of /verif"
